@@ -593,6 +593,9 @@ instance : KeepRel PreRel where
 theorem pre_sameFileDefset : Keeps PreRel sameFileDefset := by
   unfold sameFileDefset currentDefsetId withSM
   keeps
+theorem pre_defDefset : Keeps PreRel defDefset := by
+  unfold defDefset sameFileDefset currentDefsetId currentMulticlassId withSM
+  keeps
 theorem pre_indexNameValue (v : PTree) : Keeps PreRel (indexNameValue v) := by
   unfold indexNameValue utilsIdentifier
   keeps
@@ -626,7 +629,7 @@ theorem indexDef2_quiet (n : PTree) (c c' : IndexCtx) (htr : c.fileTrace ≠ [])
     exact ⟨hp.1, hp.2.1, by simp only [IndexCtx.setSM_symbolMap, hsz]; have := hp.2.2; omega⟩
   unfold indexDef at hrun
   obtain ⟨ds, c1, h1, hrun⟩ := IxM.run_bind_ok hrun
-  have p1 : PreRel c c1 := pre_sameFileDefset.run _ _ _ h1
+  have p1 : PreRel c c1 := pre_defDefset.run _ _ _ h1
   dsimp only at hrun
   split at hrun
   all_goals
